@@ -63,6 +63,20 @@ class Builtin:
         return "<%s>" % self.name
 
 
+class RecordCls:
+    """A NamedTuple / dataclass of the program (its constructor)."""
+    def __init__(self, ci, fields):
+        self.ci, self.fields = ci, fields
+
+
+class Record:
+    def __init__(self, cls: "RecordCls", values: dict):
+        self.cls, self.values = cls, values
+
+    def __repr__(self):
+        return "%s(%r)" % (self.cls.ci.name, self.values)
+
+
 class LazyDict:
     def __init__(self, node: ast.Dict, env, module):
         self.node, self.env, self.module = node, env, module
@@ -102,6 +116,11 @@ class PEval:
         kind, obj = self.P.resolve_dotted(module, name)
         if kind == "func":
             return Closure(obj.node, {}, obj.module)
+        if kind == "class":
+            bases = {(dotted(b) or "").split(".")[-1] for b in obj.node.bases}
+            decos = {(dotted(x if not isinstance(x, ast.Call) else x.func) or "").split(".")[-1] for x in obj.node.decorator_list}
+            if "NamedTuple" in bases or "dataclass" in decos:
+                return RecordCls(obj, [st.target.id for st in obj.node.body if isinstance(st, ast.AnnAssign) and isinstance(st.target, ast.Name)])
         if kind == "module":
             return Builtin("module:" + obj.name)
         if kind == "external":
@@ -137,11 +156,15 @@ class PEval:
                     return self.lookup(e.attr, {}, mod)
             if isinstance(base, Builtin):
                 return Builtin(base.name + "." + e.attr)
+            if isinstance(base, Record):
+                if e.attr in base.values:
+                    return base.values[e.attr]
+                self.fail(e, "record has no field %s" % e.attr)
             return Term("attr:" + e.attr, base)
         if isinstance(e, ast.Compare) and len(e.ops) == 1:
             l, r = self.ev(e.left, env, module), self.ev(e.comparators[0], env, module)
             op = e.ops[0]
-            const = lambda v: not isinstance(v, (Sym, Term, Closure, Builtin, LazyDict))
+            const = lambda v: not isinstance(v, (Sym, Term, Closure, Builtin, LazyDict, Record, RecordCls))
             if isinstance(op, (ast.Is, ast.IsNot)):
                 if r is None or l is None:
                     res = l is None and r is None
@@ -178,6 +201,10 @@ class PEval:
                 if v is _MISSING:
                     raise Raised("KeyError")
                 return v
+            if isinstance(base, Record) and isinstance(key, int) and -len(base.cls.fields) <= key < len(base.cls.fields):
+                return base.values[base.cls.fields[key]]
+            if isinstance(base, tuple) and isinstance(key, int) and -len(base) <= key < len(base):
+                return base[key]
             return Term("subscript", base, key)
         if isinstance(e, ast.Call):
             return self.call(e, env, module)
@@ -219,6 +246,24 @@ class PEval:
         return self.apply(f, args, kw, e)
 
     def apply(self, f, args: List, kw: Dict, node):
+        if isinstance(f, RecordCls):
+            vals = {}
+            if len(args) > len(f.fields):
+                self.fail(node, "too many fields")
+            for fld, v in zip(f.fields, args):
+                vals[fld] = v
+            for k, v in kw.items():
+                if k not in f.fields:
+                    self.fail(node, "unknown field %s" % k)
+                vals[k] = v
+            # defaults of the remaining fields
+            for st in f.ci.node.body:
+                if isinstance(st, ast.AnnAssign) and isinstance(st.target, ast.Name) and st.target.id not in vals and st.value is not None:
+                    vals[st.target.id] = self.ev(st.value, {}, f.ci.module)
+            missing = [x for x in f.fields if x not in vals]
+            if missing:
+                self.fail(node, "missing fields %s" % missing)
+            return Record(f, vals)
         if isinstance(f, Builtin):
             n = f.name
             if n in ("operator.eq", "_operator.eq") and len(args) == 2:
